@@ -306,7 +306,7 @@ def gen_C09(rng, tier):
     return scn
 
 
-CRASH_FUNCS = ["aio_run", "aio_run", "aio_start", "aio_start", "aio_submit", "prepare", "write", "create", "acquire", "release",
+CRASH_FUNCS = ["aio_run", "aio_run", "aio_start", "aio_start", "aio_submit", "prepare", "write", "output", "create", "acquire", "release",
                "_update", "__enter__", "__exit__", "start", "aio_process", "submit", "dependencychanged"]
 
 
@@ -455,7 +455,7 @@ def gen_C19(rng, tier):
         r = rng.random()
         if r < 0.15:
             plan.insert(rng.randint(0, len(plan)), ["raise"])
-        elif r < 0.25:
+        elif r < 0.35:
             spec["crash"] = crash_spec(rng, sigs=("KILL", "TERM"))
         if i > 0:
             spec["start"] = {"after_exit": i - 1}
